@@ -80,6 +80,9 @@ fn experiments() -> Vec<Exp> {
         // tiny rates: 1/length for a genome of 10^7 genes, and an explicit rate far below f32::EPSILON (a
         // "treat as zero" shortcut must not swallow them); enough gene decisions for ~40 expected flips
         v.push(Exp::Flip { rate: None, container, len: 10_000_000 });
+        // ... and of 2^24 + 1 genes: the rate is the smallest one a 24-bit coin can still apply (a rate clamped to
+        // f32::EPSILON doubles it)
+        v.push(Exp::Flip { rate: None, container, len: (1 << 24) + 1 });
         v.push(Exp::Flip { rate: Some(5e-8), container, len: 4_000_000 });
         // lengths of arbitrary magnitude (size-dependent paths: word packing, chunking, fast paths)
         for len in [100usize, 257, 1000, 3000] {
@@ -104,6 +107,8 @@ fn experiments() -> Vec<Exp> {
         if container % 2 == 0 {
             v.push(Exp::Uniform { container, len: 9000 });
         }
+        // more than 2^20 genes, not a multiple of 64 (coins drawn a word at a time must reach the last genes too)
+        v.push(Exp::Uniform { container, len: (1 << 20) + 37 });
     }
     for via_generator in [false, true] {
         v.push(Exp::RandomBits { p: Some(1e-12), via_generator, len: 1 << 20 });
@@ -195,7 +200,10 @@ fn run_experiment(exp: &Exp, trials: u64, seed: u64) -> Option<Vec<Cell_>> {
         Exp::Flip { rate, container, len } => {
             let len = *len;
             // keep the number of gene decisions bounded for very long genomes
-            let trials = if len >= 4_000_000 {
+            let trials = if len > 1 << 24 {
+                // ~160 expected flips: enough to tell one expected flip per genome from two
+                160
+            } else if len >= 4_000_000 {
                 // ~40 expected flips in total, whatever the tier
                 if rate.is_some() { 200 } else { 40 }
             } else if len > 1000 {
@@ -341,8 +349,17 @@ fn run_experiment(exp: &Exp, trials: u64, seed: u64) -> Option<Vec<Cell_>> {
             let len = *len;
             let (mut total, mut first, mut last) = (0u64, 0u64, 0u64);
             // long genomes: fewer trials, and the positions around the 4096- and 8192-gene marks one by one
-            let trials = if len > 2000 { trials / 100 } else { trials };
-            let marks: Vec<usize> = [4095usize, 4096, 4097, 8191, 8192, 8193].into_iter().filter(|m| *m < len).collect();
+            let trials = if len > 500_000 {
+                64
+            } else if len > 2000 {
+                trials / 100
+            } else {
+                trials
+            };
+            let mut marks: Vec<usize> = [4095usize, 4096, 4097, 8191, 8192, 8193].into_iter().filter(|m| *m < len).collect();
+            if len > 500_000 {
+                marks.extend([len - 2, len - 20, len - 37, len - 38, len - 64, len - 65, len / 2, 1 << 16]);
+            }
             let mut at_mark = vec![0u64; marks.len()];
             for _ in 0..trials {
                 let from_b: Vec<bool> = match container {
